@@ -422,8 +422,191 @@ pub fn c13(ctx: &mut Ctx) {
         }
     }
 }
-pub fn c14(_: &mut Ctx) {}
-pub fn c15(_: &mut Ctx) {}
+// ---------------------------------------------------------------------------------------------
+// C14: document order survives edits
+
+/// order keys along the canonical pre-order walk of a document: element, its attributes (each followed by its
+/// children; the attributes of one element in ascending key order since their relative order is open), its children
+fn order_walk(n: &XmlNode, out: &mut Vec<(usize, String)>, budget: &mut usize) {
+    if *budget == 0 { return; } *budget -= 1;
+    out.push((n.order(), format!("{:?}#{}", kind_of(n), n.id())));
+    if let Some(attrs) = n.attributes() {
+        let mut groups: Vec<Vec<(usize, String)>> = vec![];
+        for a in attrs.iter() { let an = a.as_node(); if an.id() == 0 { continue; } let mut g = vec![]; order_walk(&an, &mut g, budget); groups.push(g); }
+        groups.sort_by_key(|g| g[0].0);
+        for g in groups { out.extend(g); }
+    }
+    if matches!(kind_of(n), K::Document | K::Element | K::Attr) { for c in n.child_nodes().iter() { order_walk(&c, out, budget); } }
+}
+
+/// Some((invariant, detail)) if the order keys of the attached nodes are not non-zero, distinct and increasing
+pub fn order_invariant(doc: &XmlDocument) -> Option<(&'static str, String)> {
+    let mut seq = vec![]; let mut budget = 50_000usize;
+    order_walk(&doc.as_node(), &mut seq, &mut budget);
+    for (k, w) in seq.iter().enumerate() {
+        if w.0 == 0 { return Some(("zero", format!("{} (position {} of the walk) has order key 0", w.1, k))); }
+        if k > 0 && seq[k - 1].0 >= w.0 { return Some((if seq[k - 1].0 == w.0 { "repeated" } else { "decreasing" }, format!("{} has key {} after {} with key {}", w.1, w.0, seq[k - 1].1, seq[k - 1].0))); }
+    }
+    None
+}
+
+const REQUERY: &[&str] = &["//*", "//node()", "//@*", "//text()", "//comment()", "//processing-instruction()", "//*[1]", "//*[last()]", "//*/following::*", "//*/preceding::*", "(//*)[2]", "(//node())[last()]", "//*[2]/following-sibling::node()", "//*/preceding-sibling::node()[1]", "//*/ancestor::*", "//*[@*]", "//a | //b | //c", "//text() | //comment() | //*", "(//a | //b)[1]", "(//comment() | //text())[last()]", "count(//node())", "count(//@*)", "//*/*[2]", "//*[position() = 2]/node()", "/*/node()[3]", "//*/following-sibling::*[1]", "//*/preceding::node()[1]", "//*[last()]/preceding-sibling::node()", "string(/)", "//item | //x1 | //n | //k", "(//@* | //*)[3]", "//*/@*[1]/..", "//*[not(*)]", "/node()", "/*/*/following::node()[2]"];
+
+pub fn c14(ctx: &mut Ctx) {
+    let n: u64 = if ctx.thorough { 40_000 } else { 2_400 };
+    for i in 0..n {
+        if !ctx.mine(i) { continue; }
+        let mut r = ctx.rng(i);
+        ctx.begin(i, "");
+        let mut h = match new_history(&mut r, dom_cfg()) { Ok(h) => h, Err(e) => { ctx.inconclusive(&format!("document_not_usable:{}", crate::util::truncate(&e, 30))); continue; } };
+        if let Some((inv, detail)) = order_invariant(&h.docs[0].dom) { ctx.violation(i, &format!("C14/order/{}/initial", inv), &format!("{} :: doc {}", detail, h.text), &[("doc", &h.text)]); continue; }
+        let len = history_len(ctx, &mut r);
+        for step in 0..len {
+            let op = gen_op(&mut r, &h.pool, if step % 4 == 3 { Profile::Anything } else { Profile::Moves });
+            // read-only calls do not matter here
+            if matches!(op, Op::SubstringData { .. } | Op::Length { .. }) { continue; }
+            let desc = h.pool.describe_op(&op);
+            h.log.push(desc.clone());
+            ctx.evaluations += 1;
+            ctx.count(&format!("op/{}", op.name()));
+            let out = h.pool.apply(&op);
+            if let Outcome::Panic(_) = out { ctx.count("panic(see C13)"); break; }
+            let ok = matches!(out, Outcome::Ok(_));
+            ctx.count(if ok { "outcome/ok" } else { "outcome/err" });
+            let mut stop = false;
+            for (di, d) in h.docs.iter().enumerate() {
+                match guarded(|| order_invariant(&d.dom)) {
+                    Caught::Ok(None) => {}
+                    Caught::Ok(Some((inv, detail))) => { ctx.violation(i, &format!("C14/order/{}/{}", inv, op.name()), &format!("doc{}: {} :: after {} ({}) :: history {:?} :: doc {}", di, detail, desc, if ok { "Ok" } else { "Err" }, h.log, h.text), &[("doc", &h.text), ("history", &h.log.join("\n"))]); stop = true; }
+                    Caught::Panic { file, msg } => { ctx.violation(i, &format!("C14/order/walk-panics/{}", file), &format!("{} :: after {} :: history {:?} :: doc {}", msg, desc, h.log, h.text), &[("doc", &h.text), ("history", &h.log.join("\n"))]); stop = true; }
+                    Caught::Budget(_) => {}
+                }
+                if stop { break; }
+            }
+            if stop { break; }
+            // edited document versus a fresh parse of its serialization, on a sample of the steps
+            if ok && (step % 3 == 0 || step + 1 == len) {
+                let ser = h.docs[0].dom.to_string();
+                let fresh = match live_doc(&ser) { Ok(f) => f, Err(_) => { ctx.inconclusive("serialization_not_reparsable(see C15)"); continue; } };
+                h.docs[0].set_merged(true); fresh.set_merged(true);
+                let live_s = crate::props::xpathp::subject_of(h.docs[0].dom.clone());
+                let fresh_s = crate::props::xpathp::subject_of(fresh.dom.clone());
+                // the two documents must be the same tree for the comparison to mean anything (C15 decides the rest)
+                let same = crate::obs::dump_tree(&h.docs[0].dom, crate::props::xpathp::OPT_NS).ok() == crate::obs::dump_tree(&fresh.dom, crate::props::xpathp::OPT_NS).ok();
+                if !same { ctx.inconclusive("reparsed_document_differs(see C15)"); h.docs[0].set_merged(false); continue; }
+                for q in REQUERY {
+                    let (a, _) = crate::props::xpathp::xmlrs_eval(&live_s, q, &[], None, crate::props::xpathp::STEP_BUDGET);
+                    let (b, _) = crate::props::xpathp::xmlrs_eval(&fresh_s, q, &[], None, crate::props::xpathp::STEP_BUDGET);
+                    ctx.count("requery");
+                    if let Some(kind) = crate::props::xpathp::diff(&b, &a) {
+                        ctx.violation(i, &format!("C14/requery/{}", kind), &format!("{} gives {} on the edited document but {} on a fresh parse of {} :: history {:?} :: doc {}", q, a.brief(), b.brief(), ser, h.log, h.text), &[("doc", &h.text), ("history", &h.log.join("\n")), ("expr", q)]);
+                        stop = true; break;
+                    }
+                }
+                h.docs[0].set_merged(false);
+                if stop { break; }
+            }
+        }
+        ctx.nontrivial(&format!("{}|{}", h.log.join(";"), h.text));
+        if i % 199 == 0 { ctx.sample(&format!("{:?}  ON  {}", h.log, crate::util::truncate(&h.text, 200))); }
+    }
+}
+// ---------------------------------------------------------------------------------------------
+// C15: edits that succeed keep the document serializable and faithful
+
+/// merged-text view of a raw dump: runs of text / CDATA / reference lines of one depth become one text line
+pub fn merge_dump(raw: &str) -> String {
+    let mut out = String::new();
+    let mut run: Option<(String, String)> = None; // depth, escaped content
+    let flush = |run: &mut Option<(String, String)>, out: &mut String| { if let Some((d, v)) = run.take() { if !v.is_empty() { out.push_str(&format!("X {} \"{}\"\n", d, v)); } } };
+    for l in raw.lines() {
+        let mut it = l.splitn(3, ' ');
+        let (k, d, rest) = (it.next().unwrap_or(""), it.next().unwrap_or(""), it.next().unwrap_or(""));
+        let piece = match k { "X" | "K" => Some(rest.trim_matches('"').to_string()), "R" => rest.rfind(" \"").map(|p| rest[p + 2..].trim_end_matches('"').to_string()), _ => None };
+        match piece {
+            Some(v) => { match &mut run { Some((rd, rv)) if rd == d => rv.push_str(&v), _ => { flush(&mut run, &mut out); run = Some((d.to_string(), v)); } } }
+            None => { flush(&mut run, &mut out); out.push_str(l); out.push('\n'); }
+        }
+    }
+    flush(&mut run, &mut out);
+    out
+}
+
+/// which stored string makes the serialization unfaithful (signature component)
+fn culprit(doc: &XmlDocument) -> &'static str {
+    fn walk(n: &XmlNode, found: &mut Option<&'static str>, budget: &mut usize) {
+        if *budget == 0 || found.is_some() { return; } *budget -= 1;
+        use xml_dom::{Attr, CharacterData, ProcessingInstruction};
+        match n {
+            XmlNode::Text(t) => { let d = t.data().unwrap_or_default(); if d.contains('<') || d.contains('&') || d.contains("]]>") { *found = Some("text-markup"); } }
+            XmlNode::Comment(c) => { let d = c.data().unwrap_or_default(); if d.contains("--") || d.ends_with('-') { *found = Some("comment-dashes"); } }
+            XmlNode::CData(c) => { let d = c.data().unwrap_or_default(); if d.contains("]]>") { *found = Some("cdata-end"); } }
+            XmlNode::PI(p) => { let d = p.data(); if d.contains("?>") { *found = Some("pi-end"); } else if d.starts_with(|c: char| c == ' ' || c == '\t' || c == '\n') { *found = Some("pi-leading-space"); } }
+            XmlNode::Element(_) | XmlNode::Document(_) => {
+                if let Some(attrs) = n.attributes() { for a in attrs.iter() { for c in a.as_node().child_nodes().iter() { if let XmlNode::Text(t) = &c { let d = t.data().unwrap_or_default(); if d.contains('<') || d.contains('&') { *found = Some("attr-markup"); } if d.contains('"') && d.contains('\'') { *found = Some("attr-both-quotes"); } } } let v = a.value().unwrap_or_default(); let _ = v; } }
+                let ch: Vec<XmlNode> = n.child_nodes().iter().collect();
+                let mut run = String::new();
+                for c in &ch { if let XmlNode::Text(t) = c { run.push_str(&t.data().unwrap_or_default()); if run.contains("]]>") && found.is_none() { *found = Some("adjacent-text-cdata-end"); } } else { run.clear(); } }
+                for c in &ch { walk(c, found, budget); }
+            }
+            _ => {}
+        }
+    }
+    let mut f = None; let mut b = 20_000usize;
+    // single nodes first (their classes are more specific), adjacency is checked on the way
+    walk(&doc.as_node(), &mut f, &mut b);
+    f.unwrap_or("unclassified")
+}
+
+/// the print -> parse -> compare oracle on a live document; None = faithful (or nothing to compare)
+pub fn c15_eval(doc: &XmlDocument) -> Option<(String, String)> {
+    if doc.document_element().is_err() { return None; }
+    let ser = doc.to_string();
+    let fresh = match live_doc(&ser) {
+        Ok(f) => f,
+        Err(e) if e.contains("NotFoundReference") && doc.doc_type().is_none() => return Some(("reparse-fails/undeclared-entity-after-doctype-removal".into(), format!("the serialization refers to an entity whose declaration left with the document type ({}) :: {}", crate::util::truncate(&e, 60), ser))),
+        Err(e) => return Some((format!("reparse-fails/{}", culprit(doc)), format!("the serialization is rejected ({}) :: {}", crate::util::truncate(&e, 60), ser))),
+    };
+    let live = match crate::obs::dump_tree(doc, OPT_RAW_TREE) { Ok(d) => merge_dump(&d), Err(e) => return Some(("observation-error".into(), e)) };
+    let back = match crate::obs::dump_tree(&fresh.dom, OPT_RAW_TREE) { Ok(d) => merge_dump(&d), Err(e) => return Some(("observation-error-reparsed".into(), e)) };
+    if live != back { return Some((format!("differs/{}", culprit(doc)), format!("{} :: serialization {}", first_diff(&live, &back), ser))); }
+    None
+}
+
+pub fn c15(ctx: &mut Ctx) {
+    let n: u64 = if ctx.thorough { 60_000 } else { 3_200 };
+    for i in 0..n {
+        if !ctx.mine(i) { continue; }
+        let mut r = ctx.rng(i);
+        ctx.begin(i, "");
+        let mut h = match new_history(&mut r, dom_cfg()) { Ok(h) => h, Err(e) => { ctx.inconclusive(&format!("document_not_usable:{}", crate::util::truncate(&e, 30))); continue; } };
+        if let Some((sig, detail)) = c15_eval(&h.docs[0].dom) { ctx.inconclusive("initial_document_not_faithful(see C04)"); if ctx.notes.len() < 6 { ctx.notes.push(format!("{}: {} :: {}", sig, detail, h.text)); } continue; }
+        let len = history_len(ctx, &mut r);
+        for _ in 0..len {
+            let op = gen_op(&mut r, &h.pool, Profile::Markup);
+            if matches!(op, Op::SubstringData { .. } | Op::Length { .. }) { continue; }
+            let desc = h.pool.describe_op(&op);
+            ctx.evaluations += 1;
+            ctx.count(&format!("op/{}", op.name()));
+            let out = h.pool.apply(&op);
+            match out {
+                Outcome::Panic(_) => { ctx.count("panic(see C13)"); break; }
+                Outcome::Err(_) => { ctx.count("outcome/refused"); continue; }
+                Outcome::Ok(_) => {}
+            }
+            ctx.count("outcome/ok");
+            h.log.push(desc.clone());
+            match guarded(|| c15_eval(&h.docs[0].dom)) {
+                Caught::Ok(None) => { ctx.count("faithful-after-ok"); }
+                Caught::Ok(Some((sig, detail))) => { ctx.violation(i, &format!("C15/serial/{}", sig), &format!("after {} :: {} :: successful calls {:?} :: doc {}", desc, detail, h.log, h.text), &[("doc", &h.text), ("history", &h.log.join("\n"))]); break; }
+                Caught::Panic { file, msg } => { ctx.violation(i, &format!("C15/serial/panic/{}", file), &format!("{} :: after {} :: {:?}", msg, desc, h.log), &[("doc", &h.text), ("history", &h.log.join("\n"))]); break; }
+                Caught::Budget(_) => {}
+            }
+        }
+        ctx.nontrivial(&format!("{}|{}", h.log.join(";"), h.text));
+        if i % 199 == 0 { ctx.sample(&format!("{:?}  ON  {}", h.log, crate::util::truncate(&h.text, 200))); }
+    }
+}
 pub fn c16(_: &mut Ctx) {}
 /// replay of the witnesses of recorded DOM findings: Some(signature) if the defect is still there
 pub fn witness(prop: &str, f: &[String], _: &mut Ctx) -> Option<String> {
@@ -442,6 +625,11 @@ pub fn witness(prop: &str, f: &[String], _: &mut Ctx) -> Option<String> {
             let name = f.get(2)?.clone();
             let op = match f.get(1)?.as_str() { "pi" => Op::CreatePI { d: 0, target: name, data: "d".into() }, "entref" => Op::CreateEntRef { d: 0, name }, "element" => Op::CreateElement { d: 0, name }, "attribute" => Op::CreateAttribute { d: 0, name }, _ => return None };
             match pool.apply(&op) { Outcome::Err(E::InvalidCharacter) => None, Outcome::Ok(_) => Some(format!("{}/dom/{}/INVALID_CHARACTER/ok", prop, op.name())), Outcome::Err(e) => Some(format!("{}/dom/{}/INVALID_CHARACTER/{}", prop, op.name(), e.name())), Outcome::Panic(p) => Some(format!("{}/panic/{}", prop, p)) }
+        }
+        // fields: kind, document with a DOCTYPE that declares an entity the content refers to
+        "remove-doctype" => {
+            let dt = (0..pool.h.len()).find(|&i| pool.h[i].kind == K::Doctype)?;
+            match pool.apply(&Op::RemoveChild { p: 0, o: dt }) { Outcome::Ok(_) => c15_eval(&d.dom).map(|(sig, _)| format!("{}/serial/{}", prop, sig)), _ => None }
         }
         _ => None,
     }
